@@ -742,6 +742,9 @@ def evaluate(reference_beats, estimated_beats, **kwargs):
         the value is the (float) score achieved.
 
     """
+    # Validate first: the boolean-mask trimming below would flatten a
+    # multi-dimensional array and hide it from the metric functions' checks
+    validate(reference_beats, estimated_beats)
     # Trim beat times at the beginning of the annotations
     reference_beats = util.filter_kwargs(trim_beats, reference_beats, **kwargs)
     estimated_beats = util.filter_kwargs(trim_beats, estimated_beats, **kwargs)
